@@ -395,11 +395,27 @@ func lbStreamExchange(conn net.Conn, stream []byte) (obs lbObs) {
 	return lbObs{Msgs: []*dns.Msg{m}}
 }
 
+// lbOpaqueReader hides the length of a request body from net/http, so that the
+// request is sent without a declared content length (HTTP/2 and HTTP/3: no
+// content-length header, the body ends with END_STREAM / FIN).
+type lbOpaqueReader struct{ io.Reader }
+
 func lbHTTP(c *http.Client, method, target string, body []byte, json bool) (obs lbObs) {
-	var rd io.Reader
-	if body != nil {
-		rd = bytes.NewReader(body)
+	return lbHTTPLen(c, method, target, body, json, true)
+}
+
+func lbHTTPLen(c *http.Client, method, target string, body []byte, json, declared bool) (obs lbObs) {
+	newBody := func() io.Reader {
+		switch {
+		case body == nil:
+			return nil
+		case declared:
+			return bytes.NewReader(body)
+		default:
+			return lbOpaqueReader{bytes.NewReader(body)}
+		}
 	}
+	rd := newBody()
 	var last error
 	for obs.Attempts = 1; obs.Attempts <= lbAttempts; obs.Attempts++ {
 		req, err := http.NewRequest(method, "https://"+lbTLSName+target, rd)
@@ -411,9 +427,7 @@ func lbHTTP(c *http.Client, method, target string, body []byte, json bool) (obs 
 		resp, err := c.Do(req)
 		if err != nil {
 			last = err
-			if body != nil {
-				rd = bytes.NewReader(body)
-			}
+			rd = newBody()
 
 			continue
 		}
@@ -519,6 +533,8 @@ func lbCrypt(s *lbServers, network string, req *dns.Msg) (obs lbObs) {
 
 var lbTransports = []string{
 	"udp", "tcp", "dot", "doh-post", "doh-get", "doh-json", "doh3-post", "doq", "dnscrypt-udp", "dnscrypt-tcp",
+	// POST bodies whose length is not declared up front.
+	"doh-post-nolen", "doh3-post-nolen",
 }
 
 // lbSend sends the well-formed query req (wire) over t.
@@ -538,6 +554,10 @@ func lbSend(s *lbServers, t string, req *dns.Msg, wire []byte) (obs lbObs) {
 		return lbHTTP(s.h2, http.MethodPost, dnsserver.PathDoH, wire, false)
 	case "doh3-post":
 		return lbHTTP(s.h3, http.MethodPost, dnsserver.PathDoH, wire, false)
+	case "doh-post-nolen":
+		return lbHTTPLen(s.h2, http.MethodPost, dnsserver.PathDoH, wire, false, false)
+	case "doh3-post-nolen":
+		return lbHTTPLen(s.h3, http.MethodPost, dnsserver.PathDoH, wire, false, false)
 	case "doh-get":
 		return lbHTTP(s.h2, http.MethodGet, dnsserver.PathDoH+"?dns="+base64.RawURLEncoding.EncodeToString(wire), nil, false)
 	case "doh-json":
@@ -968,6 +988,10 @@ func lbRun(t *testing.T, r *vrt.Run, c lbCase) (fs []vrt.Finding) {
 		fs = append(fs, lbCheckBad(r, c.T, it, lbHTTP(s.h2, http.MethodPost, dnsserver.PathDoH, it.bad, false))...)
 	case "doh3-post":
 		fs = append(fs, lbCheckBad(r, c.T, it, lbHTTP(s.h3, http.MethodPost, dnsserver.PathDoH, it.bad, false))...)
+	case "doh-post-nolen":
+		fs = append(fs, lbCheckBad(r, c.T, it, lbHTTPLen(s.h2, http.MethodPost, dnsserver.PathDoH, it.bad, false, false))...)
+	case "doh3-post-nolen":
+		fs = append(fs, lbCheckBad(r, c.T, it, lbHTTPLen(s.h3, http.MethodPost, dnsserver.PathDoH, it.bad, false, false))...)
 	case "doh-get":
 		target := dnsserver.PathDoH + "?dns=" + base64.RawURLEncoding.EncodeToString(it.bad)
 		fs = append(fs, lbCheckBad(r, c.T, it, lbHTTP(s.h2, http.MethodGet, target, nil, false))...)
